@@ -108,13 +108,14 @@ impl<Endpoint: Ord + Clone> BlockHandler<Endpoint> {
     pub fn verif_peek(
         &self,
         request: &CoapRequest<Endpoint>,
-    ) -> Option<(Option<usize>, bool, Option<BlockValue>)> {
+    ) -> Option<(Option<usize>, bool, Option<BlockValue>, Option<u8>)> {
         let key: RequestCacheKey<Endpoint> = request.into();
         self.states.peek(&key).map(|state| {
             (
                 state.cached_request_payload.as_ref().map(|p| p.len()),
                 state.cached_response.is_some(),
                 state.last_request_block2.clone(),
+                state.cached_response_size_exponent,
             )
         })
     }
